@@ -1,4 +1,5 @@
 import OASProofs.Lemmas.Kernel
+import OASProofs.Lemmas.Translation
 
 /-!
 # C06  Aerodynamic results obey dynamic-pressure, scaling and translation laws
@@ -144,6 +145,22 @@ theorem c06_wind_axes (np : ℕ) (alpha beta : ℝ) (F : ℕ → V3 ℝ) :
   · simp [V3.dot, u, l]; ring
   · simp only [V3.dot, u]; nlinarith [ha, hb]
   · simp [V3.dot, l]
+
+/-! ### translation of the whole configuration -/
+
+/-- **Translating every surface and the centre of gravity by the same vector changes nothing**: the influence matrix,
+the right-hand side (with rotation rates about the translated cg) and every panel force are identical, for any list
+of surfaces without ground effect; if a surface is modelled with symmetry the translation must stay in the symmetry
+plane (`d.y = 0`). -/
+theorem c06_translation_invariant (d : V3 ℝ) (surfs : List (Surf ℝ)) (f : Flow ℝ)
+    (hg : ∀ s ∈ surfs, s.ground = false) (hp : ∀ s ∈ surfs, s.sym = true → d.y = 0) :
+    let f' : Flow ℝ := { f with cg := f.cg + d }
+    let surfs' := surfs.map (mapSurf (shiftBy d))
+    (∀ m n, aic surfs' f' m n = aic surfs f m n) ∧ (∀ m, rhs surfs' f' m = rhs surfs f m) ∧
+    (∀ gamma m, panelForce surfs' f' gamma m = panelForce surfs f gamma m) := by
+  intro f' surfs'
+  have H : ShiftHyp d surfs f f' := ⟨hg, hp, rfl, rfl, rfl, rfl, rfl, rfl, rfl⟩
+  exact ⟨aic_shift surfs f f' H, rhs_shift surfs f f' H, panelForce_shift surfs f f' H⟩
 
 end C06
 end OAS
